@@ -18,7 +18,7 @@ func init() {
 	register(&Driver{
 		ID:        "C07",
 		Technique: "exhaustive enumeration of provider populations x name assignments x requested names x field kinds x required/optional x sibling-field placements (holders built with reflect.StructOf), each a real start; plus all registration sequences up to length 4 over instances with colliding names on the real singleton registry",
-		Rule:      "programs = <=2 (thorough <=3) providers over types {TA,TB,TD} x names {x, y, default} with distinct registered names x requested name {x, y, TA's default name, absent} x field kind {*TA, I1, any} x required/optional x sibling {none, optional by-type field before, after, optional absent by-name field before}; non-trivial = requested name present with another provider of a compatible type also present, or present-but-not-assignable, or absent",
+		Rule:      "programs = <=2 (thorough <=3) providers over types {TA,TB,TD} x names {x, y, default} with distinct registered names x requested name {x, y, TA's default name, absent} x field kind {*TA, I1, any} x required/optional x sibling {none, optional by-type field before, after, optional absent by-name field before}; non-trivial = requested name present with another provider of a compatible type also present, or present-but-not-assignable, or absent. Families added in later rounds (look-ups inside Init, retries after an abandoned attempt, user extension points at every Order, several containers, odd names / types / values) are listed per part in this file and described in MANIFEST.json (level_claimed.text) and DESIGN §7",
 		Assumptions: []string{
 			"by-name tags on slice-typed fields are outside the statement (single-valued points)",
 			"more than three providers are not covered",
